@@ -217,16 +217,21 @@ def write_case(case, d, prefix="in", phased_input=None):
     """writes FASTA, BAM, VCF (+ PED, + genetic map); returns dict of paths"""
     os.makedirs(d, exist_ok=True)
     add_decoy_read(case)
-    contigs = {case["contig"]: case["seq"]}
+    # optional twin: the same data once more on a chromosome that comes FIRST in all files (a run over several chromosomes)
+    names = ([case["twin"]] if case.get("twin") else []) + [case["contig"]]
+    contigs = {n: case["seq"] for n in names}
     fa, bam, vcf = (os.path.join(d, prefix + e) for e in (".fasta", ".bam", ".vcf"))
     sim.write_fasta(fa, contigs)
-    reads = [{"name": r["name"], "chrom": case["contig"], "start": r["start"], "cigar": [tuple(c) for c in r["cigar"]],
-              "seq": r["seq"], "rg": "rg_" + r["sample"], "flag": r.get("flag", 0), "mapq": r.get("mapq", 60)} for r in case["reads"]]
+    reads = [{"name": r["name"] + ("" if n == case["contig"] else "_" + n), "chrom": n, "start": r["start"],
+              "cigar": [tuple(c) for c in r["cigar"]],
+              "seq": r["seq"], "rg": "rg_" + r["sample"], "flag": r.get("flag", 0), "mapq": r.get("mapq", 60)}
+             for n in names for r in case["reads"]]
     sim.write_bam(bam, contigs, reads, [("rg_" + s, s) for s in case["samples"]])
     recs = []
-    for i, v in enumerate(case["variants"]):
-        calls = [{"GT": case["gt"][s][i]} for s in case["samples"]]
-        recs.append({"chrom": case["contig"], "pos": v["pos"], "ref": v["ref"], "alts": [v["alt"]], "calls": calls, "format": ["GT"]})
+    for n in names:
+        for i, v in enumerate(case["variants"]):
+            calls = [{"GT": case["gt"][s][i]} for s in case["samples"]]
+            recs.append({"chrom": n, "pos": v["pos"], "ref": v["ref"], "alts": [v["alt"]], "calls": calls, "format": ["GT"]})
     sim.write_vcf(vcf, contigs, case["samples"], recs)
     out = {"fasta": fa, "bam": bam, "vcf": vcf}
     if case.get("ped"):
